@@ -841,3 +841,11 @@ def sp_fn_list(I, st, args, kwargs):
     k = parse_kind('list[str]')
     F = z3.Function(name, *[t.sort() for t in terms], sort_of(k))
     return from_term(F(*terms), k)
+
+
+@spec('colcnt')
+def sp_colcnt(I, st, args, kwargs):
+    """colcnt(df, c, v): number of rows of frame df whose cell in column c equals v."""
+    df, c, v = args
+    col = I.stubs.frame_column(I, st, df, c).fields['values']
+    return VInt(cnt_fn(col.ek)(col.arr, to_term(v, col.ek), col.length))
